@@ -54,13 +54,13 @@ theorem dom_in_words (m : Option Bytes) (s : Bytes) :
     domain -- fewer than 131072 bytes whenever input remains (`Room`), hence the descriptor
     write `cbuf_write_from_fd (cb, fd, -1, &dropped)` never overwrites: dropped = 0, and it
     appends a non-empty prefix of what is available. -/
-theorem descriptor_write_never_drops {sizeMeta : Nat} (hm1 : 1 ≤ sizeMeta) (hm2 : sizeMeta ≤ 800)
+theorem descriptor_write_never_drops {sizeMeta : Nat} (hg : growthOk sizeMeta = true)
     {b : PBuf} (hi : BufInv sizeMeta b) (avail : Bytes) (eof : Bool)
     (hroom : avail ≠ [] → b.f.q.length < 131072) :
     (PBuf.wfd b avail eof).2.1 = 0 ∧
     ∃ k, (PBuf.wfd b avail eof).2.2.f.q = b.f.q ++ avail.take k ∧ (avail ≠ [] → 0 < k) ∧
       BufInv sizeMeta (PBuf.wfd b avail eof).2.2 := by
-  obtain ⟨k, hw, hk0, _, hinv⟩ := wfd_fifo hi hm1 hm2 avail eof hroom
+  obtain ⟨k, hw, hk0, _, hinv⟩ := wfd_fifo hi avail eof hroom
   rw [hw]
   exact ⟨rfl, k, rfl, hk0, hinv⟩
 
@@ -69,25 +69,25 @@ theorem descriptor_write_never_drops {sizeMeta : Nat} (hm1 : 1 ≤ sizeMeta) (hm
     line of `S`, in order, then the calls `_flush_output` spends on the unterminated rest;
     th->rc stays 0. -/
 theorem relay_closed_form (cfg : Cfg) (host t0host : Bytes) (strm : Nat) (readRc : Bool)
-    {sizeMeta : Nat} (hm1 : 1 ≤ sizeMeta) (hm2 : sizeMeta ≤ 800) {b0 : PBuf}
+    {sizeMeta : Nat} (hg : growthOk sizeMeta = true) {b0 : PBuf}
     (hb0 : mkFifoBuf sizeMeta = some b0) (script : List Bytes)
     (hdom : Spec.Dom05 (markerOf readRc) script.flatten = true) :
     (runStream fifoOps cfg host t0host strm readRc b0 script).ems =
       (Spec.lines script.flatten).map (fun l => (⟨strm, labelPrefix cfg.labels cfg.keep host ++ l⟩ : Em)) ++
         tailEms cfg host strm ((Spec.tail script.flatten).length + 1) (Spec.tail script.flatten) false ∧
     (runStream fifoOps cfg host t0host strm readRc b0 script).rc = 0 := by
-  exact runStream_closed cfg host strm readRc t0host hm1 hm2 hb0 script hdom
+  exact runStream_closed cfg host strm readRc t0host hg hb0 script hdom
 
 /-- `relay_lossless`: the bytes written for the host are exactly the labelled stream --
     every line and a non-empty final fragment preceded by the prefix, nothing lost, duplicated,
     reordered or invented -- however the stream is fragmented. -/
 theorem relay_lossless (cfg : Cfg) (host t0host : Bytes) (strm : Nat) (readRc : Bool)
-    {sizeMeta : Nat} (hm1 : 1 ≤ sizeMeta) (hm2 : sizeMeta ≤ 800) {b0 : PBuf}
+    {sizeMeta : Nat} (hg : growthOk sizeMeta = true) {b0 : PBuf}
     (hb0 : mkFifoBuf sizeMeta = some b0) (script : List Bytes)
     (hdom : Spec.Dom05 (markerOf readRc) script.flatten = true) :
     written (runStream fifoOps cfg host t0host strm readRc b0 script).ems =
       Spec.render (labelPrefix cfg.labels cfg.keep host) script.flatten := by
-  obtain ⟨h1, _⟩ := relay_closed_form cfg host t0host strm readRc hm1 hm2 hb0 script hdom
+  obtain ⟨h1, _⟩ := relay_closed_form cfg host t0host strm readRc hg hb0 script hdom
   have h0 : ∀ b ∈ Spec.tail script.flatten, b ≠ 0 := fun b hb => dom_noNul hdom b (mem_of_mem_rest hb)
   obtain ⟨ht, _⟩ := tailEms_flatten cfg host strm _ (Spec.tail script.flatten) (Nat.lt_succ_self _) h0
   unfold written
@@ -99,33 +99,33 @@ theorem relay_lossless (cfg : Cfg) (host t0host : Bytes) (strm : Nat) (readRc : 
 
 /-- the same with the labels stripped: what pdsh wrote for the host IS what the command wrote -/
 theorem relay_lossless_stripped (cfg : Cfg) (host t0host : Bytes) (strm : Nat) (readRc : Bool)
-    {sizeMeta : Nat} (hm1 : 1 ≤ sizeMeta) (hm2 : sizeMeta ≤ 800) {b0 : PBuf}
+    {sizeMeta : Nat} (hg : growthOk sizeMeta = true) {b0 : PBuf}
     (hb0 : mkFifoBuf sizeMeta = some b0) (script : List Bytes)
     (hdom : Spec.Dom05 (markerOf readRc) script.flatten = true) :
     Spec.strip (labelPrefix cfg.labels cfg.keep host).length
       (written (runStream fifoOps cfg host t0host strm readRc b0 script).ems) = script.flatten := by
-  rw [relay_lossless cfg host t0host strm readRc hm1 hm2 hb0 script hdom, Spec.strip_render]
+  rw [relay_lossless cfg host t0host strm readRc hg hb0 script hdom, Spec.strip_render]
 
 /-- the specification's verdict (the oracle the check applies to the real code's stdio calls)
     holds of the model -/
 theorem relay_c05Ok (cfg : Cfg) (host t0host : Bytes) (strm : Nat) (readRc : Bool)
-    {sizeMeta : Nat} (hm1 : 1 ≤ sizeMeta) (hm2 : sizeMeta ≤ 800) {b0 : PBuf}
+    {sizeMeta : Nat} (hg : growthOk sizeMeta = true) {b0 : PBuf}
     (hb0 : mkFifoBuf sizeMeta = some b0) (script : List Bytes)
     (hdom : Spec.Dom05 (markerOf readRc) script.flatten = true) :
     Spec.c05Ok (labelPrefix cfg.labels cfg.keep host) script.flatten
       ((runStream fifoOps cfg host t0host strm readRc b0 script).ems.map Em.bytes) = true := by
-  have h := relay_lossless cfg host t0host strm readRc hm1 hm2 hb0 script hdom
+  have h := relay_lossless cfg host t0host strm readRc hg hb0 script hdom
   unfold written at h
   simp [Spec.c05Ok, h]
 
 /-- nothing else is emitted: every stdio call of the stream goes to the stream's own FILE
     (no diagnostic of dsh.c -- stream 9 -- is ever reached) -/
 theorem relay_only_own_stream (cfg : Cfg) (host t0host : Bytes) (strm : Nat) (readRc : Bool)
-    {sizeMeta : Nat} (hm1 : 1 ≤ sizeMeta) (hm2 : sizeMeta ≤ 800) {b0 : PBuf}
+    {sizeMeta : Nat} (hg : growthOk sizeMeta = true) {b0 : PBuf}
     (hb0 : mkFifoBuf sizeMeta = some b0) (script : List Bytes)
     (hdom : Spec.Dom05 (markerOf readRc) script.flatten = true) :
     ∀ e ∈ (runStream fifoOps cfg host t0host strm readRc b0 script).ems, e.stream = strm := by
-  obtain ⟨h1, _⟩ := relay_closed_form cfg host t0host strm readRc hm1 hm2 hb0 script hdom
+  obtain ⟨h1, _⟩ := relay_closed_form cfg host t0host strm readRc hg hb0 script hdom
   have h0 : ∀ b ∈ Spec.tail script.flatten, b ≠ 0 := fun b hb => dom_noNul hdom b (mem_of_mem_rest hb)
   obtain ⟨_, ht⟩ := tailEms_flatten cfg host strm _ (Spec.tail script.flatten) (Nat.lt_succ_self _) h0
   intro e he
@@ -140,13 +140,13 @@ theorem relay_only_own_stream (cfg : Cfg) (host t0host : Bytes) (strm : Nat) (re
     calls, call by call (so nothing observable depends on read sizes or on where lines are
     split across reads) -/
 theorem relay_chunk_independent (cfg : Cfg) (host t0host : Bytes) (strm : Nat) (readRc : Bool)
-    {sizeMeta : Nat} (hm1 : 1 ≤ sizeMeta) (hm2 : sizeMeta ≤ 800) {b0 : PBuf}
+    {sizeMeta : Nat} (hg : growthOk sizeMeta = true) {b0 : PBuf}
     (hb0 : mkFifoBuf sizeMeta = some b0) (script script' : List Bytes) (hsame : script.flatten = script'.flatten)
     (hdom : Spec.Dom05 (markerOf readRc) script.flatten = true) :
     (runStream fifoOps cfg host t0host strm readRc b0 script).ems =
       (runStream fifoOps cfg host t0host strm readRc b0 script').ems := by
-  obtain ⟨h1, _⟩ := relay_closed_form cfg host t0host strm readRc hm1 hm2 hb0 script hdom
-  obtain ⟨h2, _⟩ := relay_closed_form cfg host t0host strm readRc hm1 hm2 hb0 script' (hsame ▸ hdom)
+  obtain ⟨h1, _⟩ := relay_closed_form cfg host t0host strm readRc hg hb0 script hdom
+  obtain ⟨h2, _⟩ := relay_closed_form cfg host t0host strm readRc hg hb0 script' (hsame ▸ hdom)
   rw [h1, h2, hsame]
 
 /-- MANY HOSTS STREAMING AT ONCE, ALL INTERLEAVINGS.  `evs` is ANY global sequence of events
@@ -155,15 +155,14 @@ theorem relay_chunk_independent (cfg : Cfg) (host t0host : Bytes) (strm : Nat) (
     `k` that, in this run, receives some cutting `script` of a stream in the domain and then
     finishes, the stdio calls of `k` found in the GLOBAL output (in their global order) write
     exactly `k`'s labelled stream -- whatever the other streams did in between. -/
-theorem relay_lossless_any_interleaving (cfg : Cfg) (names : Nat → Bytes) {sizeMeta : Nat} (hm1 : 1 ≤ sizeMeta)
-    (hm2 : sizeMeta ≤ 800) {b0 : PBuf} (hb0 : mkFifoBuf sizeMeta = some b0)
+theorem relay_lossless_any_interleaving (cfg : Cfg) (names : Nat → Bytes) {sizeMeta : Nat} (hg : growthOk sizeMeta = true) {b0 : PBuf} (hb0 : mkFifoBuf sizeMeta = some b0)
     (evs : List (Key × LEv)) (k : Key) (script : List Bytes)
     (hk : (evs.filter (fun e => e.1 = k)).map (·.2) = script.map LEv.feed ++ [LEv.finish])
     (hdom : Spec.Dom05 (markerOf (!k.2)) script.flatten = true) :
     written (logOf (evs.foldl (gstep fifoOps cfg names) (ginit b0)) k) =
       Spec.render (labelPrefix cfg.labels cfg.keep (names k.1)) script.flatten := by
   rw [global_stream_is_runStream fifoOps cfg names b0 evs k script hk]
-  exact relay_lossless cfg (names k.1) (names 0) (strmNo k) (!k.2) hm1 hm2 hb0 script hdom
+  exact relay_lossless cfg (names k.1) (names 0) (strmNo k) (!k.2) hg hb0 script hdom
 
 /-- THE SAME FOR THE INDEX-LEVEL RELAY, UNCONDITIONALLY.  `indexOps` is the model of cbuf.c's
     indices and data array (Cbuf/Model.lean) -- the instance of the relay that is executed
@@ -172,7 +171,7 @@ theorem relay_lossless_any_interleaving (cfg : Cfg) (names : Nat → Bytes) {siz
     facts of Relay/IndexSim.lean), so from the buffer `cbuf_create (64, 131072)` yields it makes
     the same stdio calls: closed form, th->rc = 0 ... -/
 theorem relay_closed_form_index (cfg : Cfg) (host t0host : Bytes) (strm : Nat) (readRc : Bool)
-    {sizeMeta : Nat} (hm1 : 1 ≤ sizeMeta) (hm2 : sizeMeta ≤ 800) {a0 : Cbuf.Cbuf}
+    {sizeMeta : Nat} (hg : growthOk sizeMeta = true) {a0 : Cbuf.Cbuf}
     (ha0 : mkIndexBuf sizeMeta = some a0) (script : List Bytes)
     (hdom : Spec.Dom05 (markerOf readRc) script.flatten = true) :
     (runStream indexOps cfg host t0host strm readRc a0 script).ems =
@@ -180,31 +179,31 @@ theorem relay_closed_form_index (cfg : Cfg) (host t0host : Bytes) (strm : Nat) (
         tailEms cfg host strm ((Spec.tail script.flatten).length + 1) (Spec.tail script.flatten) false ∧
     (runStream indexOps cfg host t0host strm readRc a0 script).rc = 0 := by
   obtain ⟨b0, hb0⟩ := mkFifoBuf_some sizeMeta
-  obtain ⟨e1, e2⟩ := runStream_index_eq_fifo cfg host t0host strm readRc (by omega) ha0 hb0 script
+  obtain ⟨e1, e2⟩ := runStream_index_eq_fifo cfg host t0host strm readRc (growthOk_pos hg) ha0 hb0 script
   rw [e1, e2]
-  exact relay_closed_form cfg host t0host strm readRc hm1 hm2 hb0 script hdom
+  exact relay_closed_form cfg host t0host strm readRc hg hb0 script hdom
 
 /-- ... and is lossless for every stream in the domain and every chunking -/
 theorem relay_lossless_index (cfg : Cfg) (host t0host : Bytes) (strm : Nat) (readRc : Bool)
-    {sizeMeta : Nat} (hm1 : 1 ≤ sizeMeta) (hm2 : sizeMeta ≤ 800) {a0 : Cbuf.Cbuf}
+    {sizeMeta : Nat} (hg : growthOk sizeMeta = true) {a0 : Cbuf.Cbuf}
     (ha0 : mkIndexBuf sizeMeta = some a0) (script : List Bytes)
     (hdom : Spec.Dom05 (markerOf readRc) script.flatten = true) :
     written (runStream indexOps cfg host t0host strm readRc a0 script).ems =
       Spec.render (labelPrefix cfg.labels cfg.keep host) script.flatten := by
   obtain ⟨b0, hb0⟩ := mkFifoBuf_some sizeMeta
-  rw [(runStream_index_eq_fifo cfg host t0host strm readRc (by omega) ha0 hb0 script).1]
-  exact relay_lossless cfg host t0host strm readRc hm1 hm2 hb0 script hdom
+  rw [(runStream_index_eq_fifo cfg host t0host strm readRc (growthOk_pos hg) ha0 hb0 script).1]
+  exact relay_lossless cfg host t0host strm readRc hg hb0 script hdom
 
 /-- ... also with many hosts streaming at once, for every interleaving -/
 theorem relay_lossless_index_any_interleaving (cfg : Cfg) (names : Nat → Bytes) {sizeMeta : Nat}
-    (hm1 : 1 ≤ sizeMeta) (hm2 : sizeMeta ≤ 800) {a0 : Cbuf.Cbuf} (ha0 : mkIndexBuf sizeMeta = some a0)
+    (hg : growthOk sizeMeta = true) {a0 : Cbuf.Cbuf} (ha0 : mkIndexBuf sizeMeta = some a0)
     (evs : List (Key × LEv)) (k : Key) (script : List Bytes)
     (hk : (evs.filter (fun e => e.1 = k)).map (·.2) = script.map LEv.feed ++ [LEv.finish])
     (hdom : Spec.Dom05 (markerOf (!k.2)) script.flatten = true) :
     written (logOf (evs.foldl (gstep indexOps cfg names) (ginit a0)) k) =
       Spec.render (labelPrefix cfg.labels cfg.keep (names k.1)) script.flatten := by
   rw [global_stream_is_runStream indexOps cfg names a0 evs k script hk]
-  exact relay_lossless_index cfg (names k.1) (names 0) (strmNo k) (!k.2) hm1 hm2 ha0 script hdom
+  exact relay_lossless_index cfg (names k.1) (names 0) (strmNo k) (!k.2) hg ha0 script hdom
 
 /-! ### clauses of the property spelled out (corollaries of the theorems above)
 
@@ -219,8 +218,7 @@ theorem relay_lossless_index_any_interleaving (cfg : Cfg) (names : Nat → Bytes
     clause: `_handle_rcmd_stderr` passes read_rc = false, so for stderr the domain is just "no NUL,
     lines and final fragment at most 128 KiB"; text that contains the return-code marker is relayed
     verbatim there.  (Index-level relay, every chunking.) -/
-theorem stderr_relayed_like_stdout (cfg : Cfg) (host t0host : Bytes) {sizeMeta : Nat} (hm1 : 1 ≤ sizeMeta)
-    (hm2 : sizeMeta ≤ 800) {a0 : Cbuf.Cbuf} (ha0 : mkIndexBuf sizeMeta = some a0) (script : List Bytes)
+theorem stderr_relayed_like_stdout (cfg : Cfg) (host t0host : Bytes) {sizeMeta : Nat} (hg : growthOk sizeMeta = true) {a0 : Cbuf.Cbuf} (ha0 : mkIndexBuf sizeMeta = some a0) (script : List Bytes)
     (h0 : ∀ b ∈ script.flatten, b ≠ 0) (hl : ∀ l ∈ Spec.lines script.flatten, l.length ≤ 131072)
     (ht : (Spec.tail script.flatten).length ≤ 131072) :
     written (runStream indexOps cfg host t0host 2 false a0 script).ems =
@@ -229,10 +227,10 @@ theorem stderr_relayed_like_stdout (cfg : Cfg) (host t0host : Bytes) {sizeMeta :
   have hdom : Spec.Dom05 (markerOf false) script.flatten = true := by
     rw [dom_in_words]
     exact ⟨h0, hl, ht, by intro mk hmk; simp [markerOf] at hmk⟩
-  refine ⟨relay_lossless_index cfg host t0host 2 false hm1 hm2 ha0 script hdom, ?_⟩
+  refine ⟨relay_lossless_index cfg host t0host 2 false hg ha0 script hdom, ?_⟩
   obtain ⟨b0, hb0⟩ := mkFifoBuf_some sizeMeta
-  rw [(runStream_index_eq_fifo cfg host t0host 2 false (by omega) ha0 hb0 script).1]
-  exact relay_only_own_stream cfg host t0host 2 false hm1 hm2 hb0 script hdom
+  rw [(runStream_index_eq_fifo cfg host t0host 2 false (growthOk_pos hg) ha0 hb0 script).1]
+  exact relay_only_own_stream cfg host t0host 2 false hg hb0 script hdom
 
 theorem render_nil (s : Bytes) : Spec.render [] s = s := by
   have h := Spec.strip_render [] s
@@ -246,11 +244,11 @@ theorem render_nil (s : Bytes) : Spec.render [] s = s := by
 /-- -N (NO-LABEL MODE): what pdsh writes for the host is the stream itself, byte for byte, for
     every chunking (index-level relay, either stream) -/
 theorem relay_verbatim_with_N (cfg : Cfg) (hN : cfg.labels = false) (host t0host : Bytes) (strm : Nat)
-    (readRc : Bool) {sizeMeta : Nat} (hm1 : 1 ≤ sizeMeta) (hm2 : sizeMeta ≤ 800) {a0 : Cbuf.Cbuf}
+    (readRc : Bool) {sizeMeta : Nat} (hg : growthOk sizeMeta = true) {a0 : Cbuf.Cbuf}
     (ha0 : mkIndexBuf sizeMeta = some a0) (script : List Bytes)
     (hdom : Spec.Dom05 (markerOf readRc) script.flatten = true) :
     written (runStream indexOps cfg host t0host strm readRc a0 script).ems = script.flatten := by
-  rw [relay_lossless_index cfg host t0host strm readRc hm1 hm2 ha0 script hdom]
+  rw [relay_lossless_index cfg host t0host strm readRc hg ha0 script hdom]
   simp [labelPrefix, hN, render_nil]
 
 /-- A TARGET WHOSE COMMAND NEVER STARTS (the transport's child fails before exec and writes nothing
@@ -259,12 +257,12 @@ theorem relay_verbatim_with_N (cfg : Cfg) (hN : cfg.labels = false) (host t0host
     diagnostic about it is not relayed output.  That the child leaves pdsh's inherited stdio buffers
     alone -- `_exit` -- is an assumption about the transport, checked by the real-process runs.) -/
 theorem unstarted_host_writes_nothing (cfg : Cfg) (host t0host : Bytes) (strm : Nat) (readRc : Bool)
-    {sizeMeta : Nat} (hm1 : 1 ≤ sizeMeta) (hm2 : sizeMeta ≤ 800) {a0 : Cbuf.Cbuf}
+    {sizeMeta : Nat} (hg : growthOk sizeMeta = true) {a0 : Cbuf.Cbuf}
     (ha0 : mkIndexBuf sizeMeta = some a0) (script : List Bytes) (hempty : script.flatten = []) :
     (runStream indexOps cfg host t0host strm readRc a0 script).ems = [] := by
   have hdom : Spec.Dom05 (markerOf readRc) script.flatten = true := by
     rw [hempty]; cases readRc <;> decide
-  obtain ⟨h1, _⟩ := relay_closed_form_index cfg host t0host strm readRc hm1 hm2 ha0 script hdom
+  obtain ⟨h1, _⟩ := relay_closed_form_index cfg host t0host strm readRc hg ha0 script hdom
   rw [h1, hempty]
   simp [Spec.lines, Spec.tail, Spec.split, tailEms]
 
@@ -289,7 +287,7 @@ theorem marker_lookalikes_untouched (skip : Bool) :
     `x`: its complete lines, then its unterminated rest under the label -- no byte of `x` lost,
     none of `rest` invented.  (Index-level relay, stream in the domain.) -/
 theorem abandoned_stream_relays_what_was_read (cfg : Cfg) (host t0host : Bytes) (strm : Nat) (readRc : Bool)
-    {sizeMeta : Nat} (hm1 : 1 ≤ sizeMeta) (hm2 : sizeMeta ≤ 800) {a0 : Cbuf.Cbuf}
+    {sizeMeta : Nat} (hg : growthOk sizeMeta = true) {a0 : Cbuf.Cbuf}
     (ha0 : mkIndexBuf sizeMeta = some a0) (script : List Bytes)
     (hdom : Spec.Dom05 (markerOf readRc) script.flatten = true) :
     ∃ x rest : Bytes, x ++ rest = script.flatten ∧
@@ -299,8 +297,8 @@ theorem abandoned_stream_relays_what_was_read (cfg : Cfg) (host t0host : Bytes) 
         Spec.c06Ok (labelPrefix cfg.labels cfg.keep host) x
           ((runAbandoned indexOps cfg host t0host strm readRc a0 script).ems.map Em.bytes) = true) := by
   obtain ⟨b0, hb0⟩ := mkFifoBuf_some sizeMeta
-  obtain ⟨x, rest, hx, hems, h0⟩ := runAbandoned_closed cfg host strm readRc t0host hm1 hm2 hb0 script hdom
-  rw [runAbandoned_sim idx_sim cfg host t0host strm readRc a0 b0 (idxRel_init (by omega) ha0 hb0) script]
+  obtain ⟨x, rest, hx, hems, h0⟩ := runAbandoned_closed cfg host strm readRc t0host hg hb0 script hdom
+  rw [runAbandoned_sim idx_sim cfg host t0host strm readRc a0 b0 (idxRel_init (growthOk_pos hg) ha0 hb0) script]
   have h0t : ∀ b ∈ Spec.tail x, b ≠ 0 := fun b hb => h0 b (mem_of_mem_rest hb)
   obtain ⟨ht, _⟩ := tailEms_flatten cfg host strm _ (Spec.tail x) (Nat.lt_succ_self _) h0t
   refine ⟨x, rest, hx, ?_, ?_⟩
